@@ -28,6 +28,7 @@ import (
 	"go.6river.tech/mmmbbb/ent"
 	"go.6river.tech/mmmbbb/internal"
 	"go.6river.tech/mmmbbb/ent/enttest"
+	"go.6river.tech/mmmbbb/filter"
 	"go.6river.tech/mmmbbb/internal/sqltypes"
 )
 
@@ -425,6 +426,23 @@ func (v *vCtx) runOp(ctx context.Context, op map[string]any) (res map[string]any
 			closed = append(closed, row)
 		}
 		res["closed"] = closed
+		return
+	case "filter_roundtrip":
+		src := op["src"].(string)
+		f, err := filter.Parser.ParseString("replay", src)
+		if err != nil {
+			res["parse_err"] = err.Error()
+			return
+		}
+		var sb strings.Builder
+		if err := f.AsFilter(&sb); err != nil {
+			res["print_err"] = err.Error()
+			return
+		}
+		res["printed"] = sb.String()
+		if _, err := filter.Parser.ParseString("replay", sb.String()); err != nil {
+			res["reparse_err"] = err.Error()
+		}
 		return
 	case "dump":
 		res["state"] = v.dump(ctx)
